@@ -103,7 +103,24 @@ def safe_run(check: Check, program) -> CaseResult:
         res = check.run_case(program)
     except HarnessError:
         raise
-    except Exception as exc:  # any exception escaping run_case is a harness bug
+    except Exception as exc:
+        # An exception whose innermost frame lies in the library (geoh5py / h5py / numpy called by it) escaped a
+        # place where the harness expected the call to succeed (open, close, observation): that is a verdict about the
+        # library, not a fault of the machinery. Exceptions raised by /verif code itself are harness errors.
+        frames = traceback.extract_tb(exc.__traceback__)
+        inner = frames[-1] if frames else None
+        lib_frames = [f for f in frames if "/geoh5py/" in f.filename]
+        own_last = inner is not None and str(VERIF) in inner.filename
+        if lib_frames and not own_last:
+            res = CaseResult()
+            where = lib_frames[-1]
+            caller = next((f for f in reversed(frames) if str(VERIF) in f.filename), None)
+            res.fail(f"{check.pid}/library-exception/{caller.name if caller else '?'}/{type(exc).__name__}/{where.name}",
+                     f"{type(exc).__name__}: {str(exc)[:300]} (in {where.filename.split('/geoh5py/')[-1]}:{where.lineno}, "
+                     f"called from {caller.name if caller else '?'})")
+            res.key = phash(program)
+            env.clear_scratch()
+            return res
         raise HarnessError(
             f"harness exception in {check.pid}: {type(exc).__name__}: {exc}\n"
             + traceback.format_exc()
